@@ -287,8 +287,8 @@ def c04(res, tier, seed, replay):
     # the quantised distance, the warm and the cold answer are compared with each other (FlatPair)
     for s in range(1 if tier == "quick" else 3):
         runs.append({"name": f"flat-pq-{s}", "timeout": 900,
-                     "args": ["-mode", "cache", "-insert-only", "-config", "flat-pq", "-maxbatch", 400, "-seed", seed * 100 + 80 + s, "-hist", 1,
-                              "-batches", 8, "-rank", 3, "-panel-every", 0]})
+                     "args": ["-mode", "cache", "-insert-only", "-config", "flat-pq", "-nids", 3000, "-maxbatch", 300, "-seed", seed * 100 + 80 + s, "-hist", 1,
+                              "-batches", 16, "-rank", 3, "-panel-every", 0]})
         for cache, ctag in CACHES[::2]:
             runs.append({"name": f"flat-binlearn-{ctag}-{s}",
                          "args": ["-mode", "cache", "-repeat-upd", "-config", "flat-binlearn", "-cache", cache, "-seed", seed * 100 + 90 + s, "-hist", 3,
@@ -374,6 +374,14 @@ def c03(res, tier, seed, replay):
             runs.append({"name": f"vam-mix-{m}-{s}",
                          "args": ["-mode", "rank", "-config", f"vamana-{m}", "-seed", seed * 100 + 20 + s,
                                   "-hist", 2 if tier == "quick" else 8, "-batches", 14 if tier == "quick" else 30, "-rank", 6]})
+        # index built with search size 25, queries with up to 75: 30 points (more than the build window, fewer than the
+        # query window) and boundary-size id filters on 300 ids
+        runs.append({"name": f"vam-win25-io-{s}",
+                     "args": ["-mode", "rank", "-config", "vamana-win25", "-nids", 30, "-maxbatch", 12, "-insert-only", "-seed", seed * 100 + 40 + s,
+                              "-hist", 3 if tier == "quick" else 10, "-batches", 6, "-rank", 10]})
+        runs.append({"name": f"vam-win25-big-{s}",
+                     "args": ["-mode", "rank", "-config", "vamana-win25", "-nids", 300, "-maxbatch", 80, "-seed", seed * 100 + 45 + s,
+                              "-hist", 1 if tier == "quick" else 3, "-batches", 20, "-rank", 24]})
         # larger graphs: soundness (never dead / out-of-filter / duplicate / entry node, right distances, order)
         for m in (["euclidean", "hamming"] if tier == "quick" else METRICS[:5]):
             runs.append({"name": f"vam-big-{m}-{s}",
@@ -434,7 +442,7 @@ def c10(res, tier, seed, replay):
                                             ("dot", 400, 100, 3, 60), ("cosine", 40, 12, 6, 40), ("jaccard", 100, 30, 4, 50)]):
             for cache, ctag in CACHES[:1] if tier == "quick" else CACHES:
                 runs.append({"name": f"graph-{m}-{nids}-{ctag}-{s}",
-                             "args": ["-mode", "graph", "-config", f"vamana-{m}", "-nids", nids, "-maxbatch", mb, "-cache", cache,
+                             "args": ["-mode", "graph", "-repeat-upd", "-config", f"vamana-{m}", "-nids", nids, "-maxbatch", mb, "-cache", cache,
                                       "-seed", seed * 100 + s, "-hist", hist, "-batches", batches, "-rank", 2]})
         # saturated neighbourhoods (24 dimensions, few component values): the degree bound is actually reached
         runs.append({"name": f"graph-dense-io-{s}", "timeout": 900,
